@@ -32,8 +32,16 @@ func adoptError(err error) (e *jerr.JApiError) {
 	panic(fmt.Sprintf("Invalid error was given: %#v", err))
 }
 
-func safeAddType(curr schema.Schema, n string, ut schema.Schema) error {
-	err := curr.AddType(n, ut)
+func safeAddType(curr schema.Schema, n string, ut schema.Schema) (err error) {
+	// For a regex user type the schema library generates an example of the regular
+	// expression; the generator panics for an expression it cannot handle
+	// (/[^\x00-\x7F]/: "invalid argument to Intn") and AddType re-throws that.
+	defer func() {
+		if r := recover(); r != nil {
+			err = fmt.Errorf("the user type %s cannot be used in a schema: %v", n, r)
+		}
+	}()
+	err = curr.AddType(n, ut)
 	var e interface{ Code() errs.Code }
 	if stdErrors.As(err, &e) && e.Code() == errs.ErrDuplicationOfNameOfTypes {
 		err = nil
